@@ -20,9 +20,9 @@ pub fn def() -> PropDef {
             "ed25519-dalek verify_strict is the ground truth for a single signature",
         ],
         parts: vec![
-            Part { name: "sig", cfg_len: 0, tape_max: 80, quick: 6_000, thorough: 60_000, max_shrink_iters: 500, run: run_sig },
-            Part { name: "batch", cfg_len: 0, tape_max: 80, quick: 12_000, thorough: 600_000, max_shrink_iters: 500, run: run_batch },
-            Part { name: "enc", cfg_len: 0, tape_max: 120, quick: 30_000, thorough: 1_500_000, max_shrink_iters: 500, run: run_enc },
+            Part { name: "sig", cfg_len: 0, tape_max: 80, quick: 20_000, thorough: 200_000, max_shrink_iters: 500, run: run_sig },
+            Part { name: "batch", cfg_len: 0, tape_max: 80, quick: 60_000, thorough: 2_000_000, max_shrink_iters: 500, run: run_batch },
+            Part { name: "enc", cfg_len: 0, tape_max: 120, quick: 150_000, thorough: 5_000_000, max_shrink_iters: 500, run: run_enc },
         ],
     }
 }
